@@ -422,3 +422,9 @@ META = dict(
     explanation='each end\'s builder is executed symbolically and its text (symbolic characters) is fed to the other end\'s real parser',
     required_outcomes=['call message', 'card message', 'all received', 'stopped at end of stream', 'header', 'hand message', 'connection request', 'accepted'],
 )
+
+
+def validate(tier):
+    """translator validation: the interpreter in concrete mode against CPython on the functions this check encodes"""
+    from engine import validate as v
+    return v.run(['messages', 'regex_model'], tier)
